@@ -28,6 +28,7 @@ type GenerateSettings struct {
 	typeLengthers     map[string]string
 	customRecordTypes map[string]struct{}
 	enumSizes         map[string]uint8
+	minWireSizes      map[string]uint32
 
 	ImportGenerationMode
 	imported          []File
@@ -447,6 +448,7 @@ func (f File) Generate(inputWriter io.Writer, settings GenerateSettings) error {
 	for _, en := range f.Enums {
 		settings.enumSizes[en.Name] = fixedSizeTypes[en.SimpleType]
 	}
+	settings.minWireSizes = f.minWireSizes()
 
 	usedTypes := f.usedTypes()
 	if settings.PackageName == "" && f.GoPackage != "" {
@@ -675,6 +677,14 @@ func writeFieldReadByter(name string, typ FieldType, w *iohelp.ErrorWriter, sett
 			writeLengthCheck(w, "4", depth)
 		}
 
+		if safe {
+			// never allocate for more elements than the rest of the buffer can hold
+			if min := settings.minWireSize(*typ.Array); min > 0 {
+				writeLineWithTabs(w, "if uint64(len(buf[at+4:])) < uint64(iohelp.ReadUint32Bytes(buf[at:]))*"+strconv.Itoa(int(min))+" {", depth)
+				writeLineWithTabs(w, "\treturn io.ErrUnexpectedEOF", depth)
+				writeLineWithTabs(w, "}", depth)
+			}
+		}
 		writeLineWithTabs(w, "%ASGN = make([]%TYPE, iohelp.ReadUint32Bytes(buf[at:]))", depth, name, typ.Array.goString(settings))
 		writeLineWithTabs(w, "at += 4", depth)
 		if safe {
@@ -703,6 +713,13 @@ func writeFieldReadByter(name string, typ FieldType, w *iohelp.ErrorWriter, sett
 		}
 		writeLineWithTabs(w, lnName+" := iohelp.ReadUint32Bytes(buf[at:])", depth)
 		writeLineWithTabs(w, "at += 4", depth)
+		if safe {
+			// never allocate for more entries than the rest of the buffer can hold
+			min := settings.minWireSize(FieldType{Simple: typ.Map.Key}) + settings.minWireSize(typ.Map.Value)
+			writeLineWithTabs(w, "if uint64(len(buf[at:])) < uint64("+lnName+")*"+strconv.Itoa(int(min))+" {", depth)
+			writeLineWithTabs(w, "\treturn io.ErrUnexpectedEOF", depth)
+			writeLineWithTabs(w, "}", depth)
+		}
 		writeLineWithTabs(w, "%ASGN = make(%TYPE,"+lnName+")", depth, name, typ.Map.goString(settings))
 		writeLineWithTabs(w, "for i := uint32(0); i < "+lnName+"; i++ {", depth, name)
 		var ln string
@@ -760,6 +777,77 @@ func writeFieldMarshaller(name string, typ FieldType, w io.Writer, settings Gene
 		}
 		writeLineWithTabs(w, settings.typeMarshallers[simpleTyp], depth, name, typ.goString(settings))
 	}
+}
+
+// minWireSizes returns, for every enum and record type of the file, the fewest bytes
+// one of its values can occupy on the wire (0 for a struct without fields).
+func (f File) minWireSizes() map[string]uint32 {
+	out := make(map[string]uint32)
+	structs := make(map[string]Struct)
+	for _, en := range f.Enums {
+		out[en.Name] = uint32(fixedSizeTypes[en.SimpleType])
+	}
+	for _, msg := range f.Messages {
+		// length prefix and terminator
+		out[msg.Name] = 5
+	}
+	for _, st := range f.Structs {
+		structs[st.Name] = st
+	}
+	for _, un := range f.Unions {
+		// length prefix and discriminator
+		out[un.Name] = 5
+		for _, ufd := range un.Fields {
+			if ufd.Message != nil {
+				out[ufd.Message.Name] = 5
+			}
+			if ufd.Struct != nil {
+				structs[ufd.Struct.Name] = *ufd.Struct
+			}
+		}
+	}
+	var structSize func(name string, depth int) uint32
+	structSize = func(name string, depth int) uint32 {
+		if sz, ok := out[name]; ok {
+			return sz
+		}
+		st, ok := structs[name]
+		if !ok || depth > len(structs) {
+			return 0
+		}
+		var sum uint32
+		for _, fd := range st.Fields {
+			switch {
+			case fd.Array != nil || fd.Map != nil || fd.Simple == typeString:
+				sum += 4
+			case fixedSizeTypes[fd.Simple] != 0:
+				sum += uint32(fixedSizeTypes[fd.Simple])
+			default:
+				sum += structSize(fd.Simple, depth+1)
+			}
+		}
+		out[name] = sum
+		return sum
+	}
+	for name := range structs {
+		structSize(name, 0)
+	}
+	return out
+}
+
+// minWireSize is the fewest bytes a value of the given type can occupy on the wire.
+func (settings GenerateSettings) minWireSize(ft FieldType) uint32 {
+	if ft.Array != nil || ft.Map != nil || ft.Simple == typeString {
+		return 4
+	}
+	if sz, ok := fixedSizeTypes[ft.Simple]; ok {
+		return uint32(sz)
+	}
+	simpleTyp := ft.Simple
+	if alias, ok := settings.importTypeAliases[simpleTyp]; ok {
+		simpleTyp = alias
+	}
+	return settings.minWireSizes[simpleTyp]
 }
 
 func typeNeedsElem(typ string, settings GenerateSettings) bool {
